@@ -108,6 +108,18 @@ def gen_case(rng, race=True, strand=False):
         if k == "connect":
             c = len(peers)
             peers.append({"open": True, "cause": False})
+            if L and rng.random() < 0.15:
+                # the acceptor thread is preempted right after the hand-over of connectEstablished (see handover_case)
+                lines.append("holdHandover")
+                lines.append("connect")
+                if rng.random() < 0.5:
+                    lines.append("fin %d" % c)
+                    peers[c]["cause"] = True
+                lines.append("iter 0")
+                for _ in range(rng.randint(0, 3)):
+                    walk(loop_of(c) if rng.random() < 0.8 else any_loop())
+                lines.append("iter 0")
+                continue
             lines.append("connect")
             if rng.random() < 0.8:
                 walk(0)
@@ -296,6 +308,77 @@ def gen_case(rng, race=True, strand=False):
             drop_all()
     elif rng.random() < 0.1 and live_peers():
         lines.append("send %d 10" % rng.choice(live_peers()))     # peer side only: everything is gone
+    return lines
+
+
+def handover_case(rng):
+    """-> list of op lines of the family "the acceptor thread is preempted right after the hand-over": L >= 1 io threads;
+    `holdHandover` arms the harness so that the base thread is parked immediately after TcpServer::newConnection has
+    appended connectEstablished to the io loop's queue (it has not executed another instruction of newConnection); the
+    peer has usually closed already (FIN / RST queued in the socket before the server even accepts); the connection's io
+    loop then iterates - connectEstablished (UP), the peer's end of stream, handleClose (DOWN, close callback) - while the
+    acceptor thread is still held; only then does the acceptor thread go on (`iter 0`).  The connection belongs to the io
+    loop from the hand-over on, so on a correct server every such schedule gives UP then DOWN, the map entry is erased by
+    the base loop afterwards, the object is destroyed on its io loop and nothing aborts."""
+    L = rng.randint(1, 3)
+    lines = ["server %d %d" % (L, 1 if rng.random() < 0.3 else 0)]
+    npeers = rng.randint(1, 4)
+
+    def loop_of(c):
+        return 1 + c % L
+
+    def walk(l):
+        if rng.random() < 0.75:
+            lines.append("iter %d" % l)
+        else:
+            for _ in range(rng.randint(1, 4)):
+                lines.append("step %d" % l)
+
+    for c in range(npeers):
+        if c == 0 or rng.random() < 0.75:
+            lines.append("holdHandover")
+        lines.append("connect")
+        how = _pick(rng, [("fin", 5), ("sendfin", 2), ("rst", 1.5), ("send", 1), ("none", 1)])
+        acts = {"fin": ["fin %d" % c], "sendfin": ["send %d %d" % (c, rng.choice([1, 100, 4096])), "fin %d" % c], "rst": ["rst %d" % c],
+                "send": ["send %d %d" % (c, rng.choice([1, 100]))], "none": []}[how]
+        early = rng.random() < 0.75        # the peer has done it all before the server accepts
+        if early:
+            lines.extend(acts)
+        lines.append("iter 0")             # accept; the base thread is parked right after the hand-over (when armed)
+        if not early:
+            lines.extend(acts)
+        # the connection's loop runs while the acceptor thread is held
+        for _ in range(rng.randint(2, 4)):
+            walk(loop_of(c))
+        if L > 1 and rng.random() < 0.3:
+            walk(rng.randint(1, L))
+        x = rng.random()
+        if x < 0.15:
+            lines.append("forceClose %d" % c)
+            walk(loop_of(c))
+        elif x < 0.25:
+            lines.append("shutdown %d" % c)
+            walk(loop_of(c))
+        elif x < 0.35:
+            lines.append("hold %d" % c)
+            if rng.random() < 0.7:
+                lines.append("drop %d" % c)
+        lines.append("iter 0")             # the acceptor thread goes on: rest of newConnection, then its functors
+        if rng.random() < 0.6:
+            walk(loop_of(c))
+            if rng.random() < 0.5:
+                lines.append("iter 0")
+    ending = _pick(rng, [("drained", 5), ("inloop", 2), ("quit", 2)])
+    if ending == "drained":
+        for _ in range(drain_rounds(npeers) + 2):
+            for l in list(range(1, L + 1)) + [0]:
+                lines.append("iter %d" % l)
+    elif ending == "inloop":
+        lines.append("postDestroy")
+        lines.append("iter 0")
+        for l in list(range(L + 1)) + [0]:
+            lines.append("iter %d" % l)
+    lines.append("quit")
     return lines
 
 
@@ -683,6 +766,24 @@ def _flavours(ctx):
     return fl
 
 
+def explore_corpus(ctx, prop_id, handover=40):
+    """search mode only (an obligation or tie broke): the deterministic corpus schedules and a batch of hand-over
+    schedules before anything else runs, so that the first replay reported is a deterministic one"""
+    exes = {f: ctx.exe("owner_drv", f) for f in ("dbg", "ndebug")}
+    for p in corpus_paths():
+        lines, flavour = read_case_file(p)
+        for flav in ([flavour] if flavour in exes else ["dbg", "ndebug"]):
+            run_case(ctx, exes[flav], lines, "corpus:" + os.path.basename(p), flav)
+        if ctx.stop():
+            return
+    for i in range(handover):
+        flav = ("dbg", "ndebug")[i % 2]
+        run_case(ctx, exes[flav], handover_case(ctx.rng), "generated", flav)
+        ctx.count("owner:family:handover")
+        if ctx.stop():
+            return
+
+
 def explore(ctx, prop_id, budget_quick=20.0, budget_thorough=150.0, race=True):
     """corpus first, then generated cases until the effort budget (wall clock: it limits effort only, no verdict
     depends on it) is used up or ctx.stop()"""
@@ -701,7 +802,11 @@ def explore(ctx, prop_id, budget_quick=20.0, budget_thorough=150.0, race=True):
             break
     i = 0
     while not ctx.stop() and time.time() - t0 < budget:
-        lines = gen_case(ctx.rng, race=race, strand=True)   # F29 repaired: quit() with functors still queued is inside the usage
+        if i % 5 == 4:
+            lines = handover_case(ctx.rng)                      # the acceptor thread preempted right after the hand-over
+            ctx.count("owner:family:handover")
+        else:
+            lines = gen_case(ctx.rng, race=race, strand=True)   # F29 repaired: quit() with functors still queued is inside the usage
         flav = flavours[i % len(flavours)]
         run_case(ctx, exes[flav], lines, "generated", flav)
         i += 1
@@ -760,6 +865,7 @@ def _main(argv):
     ap.add_argument("--seed", type=int, default=1)
     ap.add_argument("--flavour", default=None, help="comma separated; default dbg,ndebug (with --show: the file's own)")
     ap.add_argument("--no-race", action="store_true", help="only schedules in which nothing is in flight when the server is destroyed")
+    ap.add_argument("--handover", action="store_true", help="only cases of the family handover_case")
     ap.add_argument("--repeat", type=int, default=1, help="run every case this many times and compare the outputs byte for byte")
     ap.add_argument("--show", help="replay one case file")
     ap.add_argument("--corpus", action="store_true", help="run the corpus cases first")
@@ -789,7 +895,7 @@ def _main(argv):
         for p in corpus_paths():
             todo.append((read_case_file(p)[0], "corpus:" + os.path.basename(p)))
     for i in range(a.n):
-        todo.append((gen_case(ctx.rng, race=not a.no_race), "generated"))
+        todo.append((handover_case(ctx.rng) if a.handover else gen_case(ctx.rng, race=not a.no_race), "generated"))
     for i, (lines, origin) in enumerate(todo):
         flav = flavours[i % len(flavours)]
         t1 = time.time()
